@@ -2,6 +2,7 @@
 from __future__ import annotations
 
 import datetime as dt
+import warnings
 
 from hypothesis import strategies as st
 
@@ -18,7 +19,8 @@ RULE = (
     "times at microsecond resolution in fixed-offset zones (named, unnamed, nameless tzinfo) and in shared zone objects "
     "whose offset depends on the date (as zoneinfo zones do); own parser of the written form; the same instant written "
     "again in another zone.  Exhaustive table: all 1561 offsets x "
-    "renderings x boundary instants.  non-trivial = non-zero offset minutes, negative offset, day roll-over, "
+    "renderings x boundary instants.  Per-attribute sweep: every date-time / time element of every class read through the class "
+    "(Aggregate.from_etree on a minimal document) with offset-bearing texts.  non-trivial = non-zero offset minutes, negative offset, day roll-over, "
     "sub-millisecond part >= 500us, or a corruption case; distinct by case hash"
 )
 ASSUMPTIONS = [
@@ -123,6 +125,8 @@ def corruptions(f, text):
 def check_case(case):
     H.setup_path()
     kind = case["kind"]
+    if kind == "sweep":
+        return check_sweep(case)
     out = []
     if kind == "read":
         is_time = case["notation"].startswith("t")
@@ -402,6 +406,83 @@ def _table_worker(job):
     return s
 
 
+SWEEP_TEXTS = [
+    # (text for a date-time element, expected instant as civil UTC fields)
+    ("20200117230000.000[-5:EST]", (2020, 1, 18, 4, 0, 0, 0)),
+    ("20200630221545.250[+5.30:IST]", (2020, 6, 30, 16, 45, 45, 250)),
+    ("19991231235959", (1999, 12, 31, 23, 59, 59, 0)),
+]
+SWEEP_TIMES = [("230000.000[-5:EST]", (4, 0, 0, 0)), ("001545.250[+5.30:IST]", (18, 45, 45, 250))]
+
+
+def _sweep_worker(names):
+    """Every date-time and time element of every class, read through the class (Aggregate.from_etree on a minimal
+    document): the notation means the same instant wherever it stands."""
+    H.setup_path()
+    from ofxtools import Types
+    from ofxtools.models.base import Aggregate
+    from pbt.core import modelgen as M, docgen as D
+    from pbt.checks.c13 import _custom_patch
+
+    s = H.Stats()
+    U = M.universe()
+    for name in names:
+        cls = U[name]
+        for attr, kind, t in M.decl(cls):
+            if kind != "elem" or not isinstance(t, Types.DateTime):
+                continue
+            is_time = isinstance(t, Types.Time)
+            for i, (text, want) in enumerate(SWEEP_TIMES if is_time else SWEEP_TEXTS):
+                case = {"kind": "sweep", "cls": name, "attr": attr, "i": i}
+                s.case(case, nontrivial=True, labels=["per-attribute sweep" + ("/time" if is_time else "/datetime")])
+                for k, d in check_case(case):
+                    s.fail(k, case, d)
+    return s
+
+
+def check_sweep(case):
+    from ofxtools import Types
+    from ofxtools.models.base import Aggregate
+    from pbt.core import modelgen as M, docgen as D
+    from pbt.checks.c13 import _custom_patch
+
+    cls = M.universe()[case["cls"]]
+    attr = case["attr"]
+    t = {a: tt for a, k, tt in M.decl(cls)}[attr]
+    is_time = isinstance(t, Types.Time)
+    text, want = (SWEEP_TIMES if is_time else SWEEP_TEXTS)[case["i"]]
+    with warnings.catch_warnings():
+        warnings.simplefilter("ignore")
+        try:
+            desc = M.minimal(cls, with_attr=attr)
+            _custom_patch(desc, attr)
+            tree = D.to_etree(desc)
+        except Exception as e:
+            raise H.HarnessError(f"sweep {case}: {e!r}")
+        tag = M.tag_of(cls, attr)
+        el = [c for c in tree if c.tag == tag]
+        if len(el) != 1:
+            raise H.HarnessError(f"sweep {case}: <{tag}> not in the minimal document")
+        el[0].text = text
+        try:
+            inst = Aggregate.from_etree(tree)
+        except Exception as e:
+            return [("valid-text-rejected-in-class", f"{case['cls']}.{attr} = {text!r}: {e!r}")]
+        val = M.stored(inst, attr)
+    try:
+        if is_time:
+            got = R.py_time_us(val)
+            exp = ((want[0] * 60 + want[1]) * 60 + want[2]) * 10**6 + want[3] * 1000
+        else:
+            got = R.py_instant_us(val)
+            exp = R.local_us(*want[:6], want[6])
+    except Exception as e:
+        return [("read-wrong-type-in-class", f"{case['cls']}.{attr} = {text!r} -> {val!r}: {e!r}")]
+    if got != exp:
+        return [("read-wrong-instant-in-class", f"{case['cls']}.{attr} = {text!r} -> {val!r}: off by {(got - exp) / 6e7} minutes")]
+    return []
+
+
 BOUNDARY_INSTANTS = [
     (2000, 2, 29, 0, 0, 0, 0),
     (1999, 12, 31, 23, 59, 59, 999),
@@ -424,3 +505,7 @@ def run(ctx):
     tj = [(offs[i::16], instants) for i in range(16)]
     ctx.pmap(_table_worker, tj)
     ctx.note("offset_table", {"offsets": len(offs), "instants": len(instants), "exhaustive_over_offsets": True})
+    from pbt.core import modelgen as M
+
+    names = sorted(M.universe())
+    ctx.pmap(_sweep_worker, [names[i::16] for i in range(16)])
